@@ -239,7 +239,7 @@ func c06Cases(thorough bool) []c06Case {
 	}
 	for _, o := range options {
 		for _, t := range [][8]byte{{}, world.Bits(ref.PReadChat), allBut(ref.PCannotBeDiscon)} {
-			cs = append(cs, c06Case{Kind: "livegrant", Target: t, Option: o})
+			cs = append(cs, c06Case{Kind: "livegrant", Target: t, Option: o}, c06Case{Kind: "livegrant", Path: "updateuser", Target: t, Option: o}, c06Case{Kind: "livegrant", Path: "rename", Target: t, Option: o})
 		}
 	}
 	return cs
@@ -258,7 +258,7 @@ func missing(b [8]byte) int {
 // it are connected; afterwards neither session can be disconnected or banned, whatever the option.
 func c06LiveGrant(w *explore.Worker, c c06Case) {
 	fail := func(clause, detail string) {
-		w.Violation("C06/discon-live-grant/"+clause, fmt.Sprintf("option %x: %s", c.Option, detail), 1, c)
+		w.Violation("C06/discon-live-grant/"+clause, fmt.Sprintf("option %x granted with %q: %s", c.Option, c.Path, detail), 1, c)
 	}
 	seqChecked(w, "C06", "livegrant", c, func() {
 		wd := world.New(world.Cfg{Accounts: []world.Acct{
@@ -286,7 +286,15 @@ func c06LiveGrant(w *explore.Worker, c c06Case) {
 		}
 		prot := c.Target
 		prot[ref.PCannotBeDiscon/8] |= 0x80 >> uint(ref.PCannotBeDiscon%8)
-		sid := adm.Req(ref.TSetUser, ref.F(ref.FUserLogin, obf("target")), ref.FS(ref.FUserName, "Target"), ref.F(ref.FUserPassword, []byte{0}), ref.F(ref.FUserAccess, prot[:]))
+		var sid uint32
+		switch c.Path { // which editor grants the protection
+		case "updateuser":
+			sid = adm.Req(ref.TUpdateUser, ref.F(ref.FData, subFields(ref.F(ref.FUserLogin, obf("target")), ref.FS(ref.FUserName, "Target"), ref.F(ref.FUserPassword, []byte{0}), ref.F(ref.FUserAccess, prot[:]))))
+		case "rename": // renamed and protected in one entry of the multi-account editor
+			sid = adm.Req(ref.TUpdateUser, ref.F(ref.FData, subFields(ref.F(ref.FData, obf("target")), ref.F(ref.FUserLogin, obf("target2")), ref.FS(ref.FUserName, "Target"), ref.F(ref.FUserPassword, []byte{0}), ref.F(ref.FUserAccess, prot[:]))))
+		default:
+			sid = adm.Req(ref.TSetUser, ref.F(ref.FUserLogin, obf("target")), ref.FS(ref.FUserName, "Target"), ref.F(ref.FUserPassword, []byte{0}), ref.F(ref.FUserAccess, prot[:]))
+		}
 		world.Quiet()
 		if r := adm.Reply(sid); r == nil || r.Err != 0 {
 			fail("set-user-refused", fmt.Sprint(r))
@@ -312,7 +320,7 @@ func c06LiveGrant(w *explore.Worker, c c06Case) {
 				fail("protected-session-banned", ip)
 			}
 		}
-		w.Outcome(fmt.Sprintf("livegrant %x closed=%v/%v", c.Option, t1.Conn.Closed, t2.Conn.Closed))
+		w.Outcome(fmt.Sprintf("livegrant %s %x closed=%v/%v", c.Path, c.Option, t1.Conn.Closed, t2.Conn.Closed))
 	})
 }
 
